@@ -1626,6 +1626,25 @@ func (ex *Executor) builtin(st *State, f *Frame, name string, args []Val, dest s
 	case "builtin:delete":
 		ex.mapDelete(st, args[0].(MapV), args[1])
 		return nil
+	case "builtin:clear":
+		switch x := args[0].(type) {
+		case MapV:
+			if x.Obj != nil {
+				ex.logAccess(st, Ptr{Obj: x.Obj}, true)
+				st.dirty = true
+				st.Heap[x.Obj] = &MapData{}
+			}
+			return nil
+		case SliceV:
+			var et types.Type
+			if x.Arr != nil {
+				et = x.Arr.Typ.(*types.Array).Elem()
+				for i := 0; i < x.Len; i++ {
+					ex.store(st, Ptr{x.Arr, pathAppend("", 'i', x.Off+i)}, ex.zero(et))
+				}
+			}
+			return nil
+		}
 	case "builtin:close":
 		ex.chanClose(st, args[0].(ChanV))
 		return nil
